@@ -391,6 +391,28 @@ def corpus(spec_id):
         c.add_increase_effect(y, 1, g)
         p.add_action(a); p.add_action(b); p.add_action(c); p.add_goal(em.And(g, em.Equals(y, 4)))
         out.append(HandGen(p, "uinr-undefined-chain"))
+        # open finding C07-uinr-guard-on-conditional-read: the value of a conditional effect reads an undefined numeric
+        # fluent; the original skips the effect (c false), the compiled action requires is_value_defined_x.  Witness: [a]
+        env, tm, em, T, p, objs = base("uinr-conditional-read")
+        x, y = ifl(env, tm, p, "x", None), ifl(env, tm, p, "y", 0)
+        c, g = bfl(env, tm, p, "c", False), bfl(env, tm, p, "g", False)
+        a = InstantaneousAction("a", _env=env)
+        a.add_effect(y, em.Plus(x, 1), c)
+        a.add_effect(g, True)
+        p.add_action(a); p.add_goal(g)
+        out.append(HandGen(p, "uinr-conditional-read"))
+        # open finding C08-uinr-quantified-read: a quantified precondition reads an undefined numeric fluent at the bound
+        # variable; the guard is_value_defined_xs(v) is added as a precondition with v free: compile raises
+        env, tm, em, T, p, objs = base("uinr-quantified-read")
+        xs = Fluent("xs", tm.IntType(), OrderedDict([("t", T)]), env)
+        p.add_fluent(xs)
+        g = bfl(env, tm, p, "g", False)
+        v = Variable("v", T, env)
+        a = InstantaneousAction("a", _env=env)
+        a.add_precondition(em.Exists(em.GT(xs(v), 0), v))
+        a.add_effect(g, True)
+        p.add_action(a); p.add_goal(g)
+        out.append(HandGen(p, "uinr-quantified-read"))
     if spec_id in ("usertype-fluents-remover", "pipeline:usertype+quantifiers+disjunctive"):
         # the Boolean encoding must switch the old value off: loc := x, then a test of the old value
         env, tm, em, T, p, objs = base("utfr-old-value-cleared")
@@ -1132,6 +1154,25 @@ def shape_tags(problem):
         conds += list(tc.args)
     if any(quantifier_under_negation(c) for c in conds):
         tags.add("quantifier-under-negation")
+    # shapes of the open UndefinedInitialNumericRemover findings (numeric fluent symbols with an undefined initial value)
+    try:
+        _undef = set(f for f in problem._fluents_with_undefined_values() if f.type.is_int_type() or f.type.is_real_type())
+    except Exception:  # noqa
+        _undef = set()
+    if _undef:
+        def _reads_undef(e):
+            return (e.is_fluent_exp() and e.fluent() in _undef) or any(_reads_undef(x) for x in e.args)
+
+        def _quantified_read(e):
+            if e.is_exists() or e.is_forall():
+                return _reads_undef(e.arg(0))
+            return any(_quantified_read(x) for x in e.args)
+
+        if any(_quantified_read(c) for c in conds):
+            tags.add("quantified-read-of-undefined-numeric-fluent")
+        if any(e.is_conditional() and (_reads_undef(e.value) or ((e.is_increase() or e.is_decrease()) and e.fluent.fluent() in _undef))
+               for a in problem.actions if isinstance(a.effects, list) for e in a.effects):
+            tags.add("conditional-effect-reads-undefined-numeric-fluent")
 
     def _has_fluent(e):
         return e.is_fluent_exp() or any(_has_fluent(x) for x in e.args)
